@@ -893,8 +893,47 @@ func genLive(rng *rand.Rand, pools hPools, instances int, redis bool) []hOp {
 	return ops
 }
 
+// genManySwarms: thousands of SWARMS (one or two members each) instead of one large swarm: whatever walks the set of swarms
+// (an expiry pass over a shard, the totals, the Redis registration hashes) must cope with far more than a thousand of them.
+// All members but a few re-announce?  No: all of them expire in one pass, a handful of fresh ones stay.
+func genManySwarms(rng *rand.Rand, instances, count int) []hOp {
+	clock := int64(1_700_000_000_000_000_000)
+	ops := []hOp{{T: "clock", Ns: clock}}
+	mk := func(i int, seeder bool) hOp {
+		ih := make([]byte, 20)
+		copy(ih, []byte("many-swarms-"))
+		binary.BigEndian.PutUint32(ih[12:], uint32(i)*2654435761) // spread over the shards
+		binary.BigEndian.PutUint32(ih[16:], uint32(i))
+		id := make([]byte, 20)
+		copy(id, []byte("-MS0001-"))
+		binary.BigEndian.PutUint32(id[16:], uint32(i))
+		op := hOp{T: "store", IH: hx(ih), PID: hx(id), IP: hx([]byte{10, 7, byte(i >> 8), byte(i)}), Port: 1024 + i%60000, Inst: rng.Intn(instances), Which: 3}
+		if seeder {
+			op.Which = 1
+		}
+		return op
+	}
+	for i := 0; i < count; i++ {
+		ops = append(ops, mk(i, i%3 == 0))
+	}
+	ops = append(ops, hOp{T: "totals", Inst: rng.Intn(instances)})
+	stale := clock
+	clock += int64(10 * time.Minute)
+	ops = append(ops, hOp{T: "clock", Ns: clock})
+	for i := 0; i < 5; i++ {
+		ops = append(ops, mk(rng.Intn(count), false)) // a few stay (their swarm keeps a fresh leecher)
+	}
+	ops = append(ops, hOp{T: "gc", Cutoff: stale + 5, Inst: rng.Intn(instances)}, hOp{T: "totals", Inst: rng.Intn(instances)}, hOp{T: "dump"})
+	clock += int64(10 * time.Minute)
+	ops = append(ops, hOp{T: "clock", Ns: clock}, hOp{T: "gc", Cutoff: clock - 5, Inst: rng.Intn(instances)}, hOp{T: "totals", Inst: rng.Intn(instances)}, hOp{T: "dump"})
+	return ops
+}
+
 func histStream(o *Out, rng *rand.Rand, n int, emphasis string) {
 	memShards := []int{1, 2, 7, 1024}
+	// thousands of swarms: memory (few shards: many swarms per shard) and Redis
+	runHistory(o, "many-swarms-mem", hStoreCfg{Kind: "mem", Shards: 2}, genManySwarms(rng, 1, 1300))
+	runHistory(o, "many-swarms-redis", hStoreCfg{Kind: "redis", Instances: 1}, genManySwarms(rng, 1, 1100))
 	// live histories: the stores' own expiry / reporting goroutines at work
 	for k := 0; k < 2+n/400; k++ {
 		cfg := hStoreCfg{Kind: "mem", Shards: memShards[k%len(memShards)], Live: true}
